@@ -7,6 +7,7 @@ ops
   new <fifo|interleaved|random|blockedrandom|grouped|blockedfifo> <keep 0|1> <gsize> <draws> <perms>
   append <arr|gen> <len> <trials> <delays> <dur> <zeroAt>
   pop <n> | tick <n> (same through the per-sample spec) | pause <m|none> | resume <m|none>
+  popnd <n>  (pop_buffer(n, decrement=False); pause-free histories only)
 every state-changing op answers
   ok|err <Class>  out=<rle cells> add=<key@k+dur,..> rm=<uid,..> ts=<samples> empty=<0|1> rem=<trials,..> ct=<n> cr=<n>
 Cells whose reference value is exactly 0.0 (listed in zeroAt by the harness) are displayed as Z:
@@ -102,6 +103,16 @@ def step (d : DState) (ws : List String) : DState × String :=
     | none => (d, "bad-op")
     | some n =>
       match popBuffer n.toNat d.q with
+      | .ok (out, q) => ({ d with q := q }, report "ok" d.zeroAt d.q q out)
+      | .error e =>
+        if n ≤ 0 then (d, report s!"err {showErr e}" d.zeroAt d.q d.q [])
+        else ({ d with dead := true }, s!"err {showErr e}")
+  | ["popnd", n] =>
+    if d.dead then (d, "dead") else
+    match parseInt? n with
+    | none => (d, "bad-op")
+    | some n =>
+      match popBufferND n.toNat d.q with
       | .ok (out, q) => ({ d with q := q }, report "ok" d.zeroAt d.q q out)
       | .error e =>
         if n ≤ 0 then (d, report s!"err {showErr e}" d.zeroAt d.q d.q [])
